@@ -26,10 +26,11 @@ PROP = dict(
         "the worker-process harness (harness/src/fework.rs) that attributes a process death to the text being analysed",
     ],
     assumptions=[
-        "confirmed crashes with a fix pending are gated by start-up probes (fecorpus::GATES: D53 stack overflow on `fn f() { f }`, "
-        "D54 implement for an unknown type, D55 `!` in a default value, D56 Try impl without `branch`, D57 method of an interface "
-        "without implementations): while a probe still crashes, crashes at the site it reports are counted under its id and named "
-        "in a note; a probe that stops crashing gates nothing",
+        "confirmed crashes are start-up probes (fecorpus::GATES), run in a child process before the stream: D53 (stack overflow on "
+        "`fn f() { f }`), D54, D55, D56, D57 have been fixed and are regression inputs (a crash is a failing input again); F8 "
+        "(`array<>`), F9 (`PushNil(0); Pop` in the optimizer) and F10 (blanket `implement I for T`) have a fix pending: while such a "
+        "probe still crashes, crashes at the site it reports are counted under its id and named in a note; once it stops crashing "
+        "it gates nothing",
         "only the main file is damaged; imports of the corpus programs are left unresolved",
     ],
     design_ref="DESIGN.md §6 C34",
